@@ -137,7 +137,7 @@ theorem defaultStart_rel {Bw Bs : KktSolver α → KktSolver α → Prop} (hsim 
   obtain ⟨p, hp⟩ := hi
   refine ⟨rfl, rfl, rfl, rfl, .nil, rfl, rfl, hst, ⟨p, hp, fun h => (Nat.not_succ_le_zero 0 h).elim⟩, hpv,
     fun h => (Nat.not_succ_le_zero 0 h).elim, hres, ?_, hce, ?_, ?_⟩
-  · show KRel Bw (numelAll (setIdentityScaling S.cones)) K2 K2'
+  · show KRel Bw (numelAll (setIdentityScaling S.cones)) S.data.q.size K2 K2'
     rw [hn]
     exact { f4 with solver := hsim.weaken f4.solver }
   · show StepShape (numelAll (setIdentityScaling S.cones)) S.stepLhs S'.stepLhs
